@@ -1,6 +1,6 @@
 (* C12 — Each request is answered at most once, to the right requester.
    This file holds only the property theorems (each closed by [exact] of a lemma proved in
-   IdProofs / ReplyInv / ReplyStep / ReplyProps / ReplyRefine / ConnProofs / ConnWait / ConnReserve), non-vacuity examples and
+   IdProofs / ReplyInv / ReplyStep / ReplyProps / ReplyRefine / ConnProofs / ConnWait / ConnReserve / ConnBytes), non-vacuity examples and
    Print Assumptions.
 
    Reading guide.
@@ -29,7 +29,7 @@
           specification [sworld].  [minit dg idl] is a fresh connection. *)
 From MptV Require Import Base.Mem C12.ReplyModel C12.ReplySpec C12.IdProofs
   C12.ReplyInv C12.ReplyStep C12.ReplyProps C12.ReplyRefine
-  C12.ConnModel C12.ConnSim C12.ConnKeep C12.ConnSpecProps C12.ConnWait C12.ConnReserve C12.ConnProofs.
+  C12.ConnModel C12.ConnSim C12.ConnKeep C12.ConnSpecProps C12.ConnWait C12.ConnReserve C12.ConnProofs C12.ConnBytes.
 Local Open Scope nat_scope.
 
 (* ------------------------------------------------------------------ ids *)
@@ -347,6 +347,49 @@ Theorem C12_conn_wait_ids_distinct :
   forall dg idl ops, NoDup (act_ids (ctab (snd (mcexec (minit dg idl) ops)))).
 Proof. exact conn_wait_ids_distinct. Qed.
 
+(* byte level of the dispatchers.  The test "the id is zero: notification, no reply context" looks at the VALUE of
+   every id byte: a message is a request as soon as one id byte, in any position, differs from 0 (0x80 or 0xff behind
+   the first byte are id content, not a mark) ... *)
+Theorem C12_conn_zero_test_per_byte :
+  forall bs, all_zero bs = false <-> (exists b, In b bs /\ b <> 0%N).
+Proof. exact all_zero_false_iff. Qed.
+
+(* ... so C12_conn_request_answered_once holds for every id that has a byte different from 0 ... *)
+Theorem C12_conn_request_any_nonzero_byte :
+  forall dg idl ops m acts code,
+  let w := fst (mcexec (minit dg idl) ops) in
+  let c := snd (mcexec (minit dg idl) ops) in
+  wown w = 1 -> cclosed c = false -> (cdg c = true \/ cact c = false) ->
+  0 < cidl c -> cidl c <= length m -> (hd 0 m < 128)%N ->
+  (exists b, In b (firstn (cidl c) m) /\ b <> 0%N) ->
+  forallb is_reply_act acts = true ->
+  let id := firstn (cidl c) m in
+  let p0 := first_reply acts code in
+  exists w',
+    dispatch_request world mstep marmed wstep w c m (Some (acts, code)) =
+      (w', set_req c (wstep w) id, code, Some (true, skipn (cidl c) m),
+       match acts with [] => [] | _ :: rest => HInt (tans c p0) :: map (fun _ => HInt EBadArgument) rest end,
+       [mark id ++ paybytes p0], false) /\
+    marmed w' = false /\ wown w' = 1 /\ wlog w' = wlog w ++ [mkent (wstep w) (mark id) p0].
+Proof. exact conn_request_nonzero_byte. Qed.
+
+(* ... and only an id whose bytes are all 0 is handled as a notification (context untouched, nothing sent) *)
+Theorem C12_conn_notification_all_zero :
+  forall (w : world) c m h,
+  (forall b, In b (firstn (cidl c) m) -> b = 0%N) ->
+  dispatch_request world mstep marmed wstep w c m h =
+    (w, c, match h with None => 0%Z | Some (_, code) => code end,
+     match h with None => None | Some _ => Some (false, skipn (cidl c) m) end, [], [], false).
+Proof. exact conn_notification_silent. Qed.
+
+(* slot level of mpt_command_reserve: after the compaction loop the table is exactly the slots that were in use, in
+   their order, followed by the new slot: no waiter is lost, doubled or moved behind another *)
+Theorem C12_conn_reserve_table :
+  forall tab idl tag tab' k id,
+  reserve true tab idl tag = Some (tab', k, id) ->
+  tab' = tactive tab ++ [mkwe id (Some tag)] /\ k = length (tactive tab).
+Proof. exact reserve_table. Qed.
+
 (* the connection over the mechanism refines the connection over the abstract specification:
    same results, waiter calls, wire messages, connection state and views after every operation *)
 Theorem C12_conn_refines_spec :
@@ -389,6 +432,17 @@ Example C12_ex_conn_routing :
   act_ids (ctab c) = [1%N] /\ tfind (ctab c) 1%N = Some (0, 1).
 Proof. vm_compute. split; reflexivity. Qed.
 
+(* byte level: request 00 80 "A" on a stream connection with two-byte ids (the 128th id a requester hands out) is a
+   request: the generic answer goes out under 80 80; two free slots in front of three used ones are compacted *)
+Example C12_ex_conn_id_0080 :
+  map (fun x => r_wire (fst x)) (mcrun (minit false 2) [CTx [0; 128; 65]%N; CDp [] 0]) = [[]; [[128; 128; 1; 0]%N]].
+Proof. vm_compute. reflexivity. Qed.
+
+Example C12_ex_reserve_two_free_three_used :
+  reserve true [mkwe 1 None; mkwe 2 None; mkwe 3 (Some 3); mkwe 4 (Some 4); mkwe 5 (Some 5)] 2 6 =
+  Some ([mkwe 3 (Some 3); mkwe 4 (Some 4); mkwe 5 (Some 5); mkwe 6 (Some 6)], 3, 6%N).
+Proof. vm_compute. reflexivity. Qed.
+
 
 Print Assumptions C12_id_roundtrip.
 Print Assumptions C12_id_accepted_when_fits.
@@ -418,3 +472,7 @@ Print Assumptions C12_conn_answered_once.
 Print Assumptions C12_conn_reserve_fresh.
 Print Assumptions C12_conn_wait_ids_distinct.
 Print Assumptions C12_conn_refines_spec.
+Print Assumptions C12_conn_zero_test_per_byte.
+Print Assumptions C12_conn_request_any_nonzero_byte.
+Print Assumptions C12_conn_notification_all_zero.
+Print Assumptions C12_conn_reserve_table.
